@@ -46,6 +46,8 @@ def names(scheme, q, g):
         return ["q%d" % i for i in range(q)], ["Z", "X", "Y"][:g]
     if scheme == "int":
         return list(range(q)), list(range(g))
+    if scheme == "mixedval":   # values of different types with one spelling
+        return [0, "0", 1][:q], [0, "0", 1][:g]
     if scheme == "reserved":   # the library's own fresh names
         return ["#STARTTOFINAL#", "#ENDEMPTYS#", "q"][:q], ["#BOTTOMTOFINAL#", "#BOTTOMEMPTYS#", "#BOTTOMEMPTYS#0"][:g]
     if scheme == "reserved2":
